@@ -257,6 +257,12 @@ func checkV1(c V1Case) error {
 	if len(fc.ValidProofOutputs) != 2 || toBig(fc.ValidProofOutputs[0].Value).Cmp(rp) != 0 || toBig(fc.ValidProofOutputs[1].Value).Cmp(sum(cp, hcoll)) != 0 {
 		return failf("v1/form/outputs", "formation valid outputs %+v, want renter %v host %v", fc.ValidProofOutputs, rp, sum(cp, hcoll))
 	}
+	// a freshly formed contract is empty, unrevised, and its window is the requested end height plus the host's window
+	if fc.Filesize != 0 || fc.FileMerkleRoot != (types.Hash256{}) || fc.RevisionNumber != 0 ||
+		fc.WindowStart != c.EndHeight || fc.WindowEnd != c.EndHeight+host.WindowSize {
+		return failf("v1/form/fields", "formation contract is not the empty contract ending at %d (+%d): filesize %d root %v revision %d window [%d,%d)",
+			c.EndHeight, host.WindowSize, fc.Filesize, fc.FileMerkleRoot, fc.RevisionNumber, fc.WindowStart, fc.WindowEnd)
+	}
 	payout := toBig(fc.Payout)
 	renterCost := toBig(rhp2.ContractFormationCost(cs, fc, fromBig(cp)))
 	if sum(renterCost, hcoll).Cmp(payout) != 0 {
